@@ -321,6 +321,15 @@ def run_real(case):
                 res["apply"] = [bool(w.getitem_apply(i)) for i in range(n)]
             except Exception as e:
                 res["apply"] = exc_kind(e)
+        # tables computed at construction (compared with the model's state, not used by the oracle)
+        try:
+            if kind == "cg":
+                res["table"] = [int(v) for v in w.cls_to_clsgroup.tolist()]
+                res["within"] = [int(v) for v in w.idx_within_class]
+            if kind == "ag":
+                res["indices"] = [int(v) for v in w.indices]
+        except Exception as e:
+            res["table"] = exc_kind(e)
     res["tape"], res["calls"] = tape, calls
     # wrapped data other than the label
     others = []
@@ -457,7 +466,8 @@ def compare(case, model, real):
     rv = {"ctor": real["ctor"]}
     mv = {"ctor": model.get("ctor", model)}
     if real["ctor"] == "ok" and model.get("ctor") == "ok":
-        keys = ["items", "bulk"] + (["shape"] if k in ("rs", "rc") else []) + (["apply"] if k == "swap" else [])
+        keys = (["items", "bulk"] + (["shape"] if k in ("rs", "rc") else []) + (["apply"] if k == "swap" else [])
+                + (["table", "within"] if k == "cg" else []) + (["indices"] if k == "ag" else []))
         for key in keys:
             rv[key], mv[key] = real.get(key), model.get(key)
         if k in ENCODING:
@@ -509,7 +519,8 @@ def in_domain(case):
     if k == "semi":
         return labels_ok(labels, C, True) and 0. <= case["p"] <= 1.
     if k == "ls":
-        return labels_ok(labels, C, True) and 0. <= case["s"] <= 1.
+        # getdim_class() == 1 is the binary convention: labels 0 / 1
+        return labels_ok(labels, 2 if C == 1 else C, True) and 0. <= case["s"] <= 1.
     if k == "oh":
         return labels_ok(labels, C, False)
     return False
@@ -791,7 +802,7 @@ def gen_case(rng, kind, big=False):
             c["p"] = rng.choice([1.5, -0.1])
         return c
     if kind == "ls":
-        c.update(labels=gen_labels(rng, C, n, True), s=rng.choice([0, 0., 0.1, 0.1, 0.25, 0.5, 0.9, 1., 1, round(rng.random(), 3)]))
+        c.update(labels=gen_labels(rng, 2 if C == 1 else C, n, True), s=rng.choice([0, 0., 0.1, 0.1, 0.25, 0.5, 0.9, 1., 1, round(rng.random(), 3)]))
         if odd:
             z = rng.choice(["s", "label", "neg"])
             if z == "s":
@@ -893,7 +904,7 @@ def observations():
 # ----------------------------------------------------------------------------------------------
 class C16(PropertyCheck):
     pid = "C16"
-    claimed = False
+    claimed = True
     props_modules = ["KDVerif.Props.C16"]
     extra_build = ["KDVerif.Driver.Labels"]
     driver_main = "mains/Labels.lean"
